@@ -658,6 +658,10 @@ package cose
 //@         asmap(*h)[k] is Algorithm && algIsInt(dec_map_val(decMode, bstr_content(bytes(data)))[k]) && algInt(asmap(*h)[k]) == algInt(dec_map_val(decMode, bstr_content(bytes(data)))[k]))
 //@   ensures values_kept [C04, C05, C06, C09]: err == nil && blen(bstr_content(bytes(data))) > 0 ==> (forall k any :: k in asmap(*h) && !(isIntKey(k) && intOf(k) == 1) ==>
 //@         asmap(*h)[k] == dec_map_val(decMode, bstr_content(bytes(data)))[k])
+//@   ensures complete [C01, C07]: h != nil && len(data) > 0 && b_major(bytes(data)) == 2 && bstr_wf(bytes(data))
+//@         && (blen(bstr_content(bytes(data))) > 0 ==> b_major(bstr_content(bytes(data))) == 5 && dec_labels_err(decMode, bstr_content(bytes(data))) == nil
+//@               && dec_shape_err(decMode, bstr_content(bytes(data)), "map[any]any") == nil)
+//@         && err != nil ==> wraps(err) != nil
 //@   ensures err_frame [C06, C19]: err != nil && h != nil ==> *h == old(*h)
 //@   modifies frame [C06, C18, C19]: *h
 
@@ -1323,4 +1327,18 @@ package cose
 //@   requires uniq: m != nil && len(m.Headers.RawProtected) > 0 ==> uniqueLabels(asmap(m.Headers.Protected))
 //@   ensures roundtrip [C01]: result == nil
 //@   ensures counts: epoch() >= old(epoch()) && vepoch() >= old(vepoch())
+//@   modifies frame: anything
+
+// a received COSE_Sign1 (tag 18): the verifier gets Sig_structure over the received protected bytes (length prefix
+// normalised, nothing else re-encoded), the caller's external data and the received payload, and the received signature;
+// and an accepted message with a payload whose algorithm gate passes does reach the verifier (no further rejection).
+//@ func lemmaSign1DecodeThenVerify
+//@   requires nonnil: verifier != nil
+//@   ensures wire_bytes [C02, C03, C07, C09]: result0 != nil && vepoch() == old(vepoch()) + 1 ==> len(data) >= 2
+//@         && bytes(result0.Payload) == bstr_content(dec_elem(bytes(data[1:]), 2))
+//@         && result1 == verifier_verify(verifier, Sig1(dec_elem(bytes(data[1:]), 0), external, result0.Payload), bstr_content(dec_elem(bytes(data[1:]), 3)))
+//@   ensures reaches_verifier [C01, C07]: result0 != nil && result0.Payload != nil
+//@         && (algPresent(result0.Headers.Protected) ==> algAgrees(result0.Headers.Protected, verifier_alg(verifier))) && (algPresent(result0.Headers.Protected) || len(external) > 0)
+//@         ==> vepoch() == old(vepoch()) + 1
+//@   ensures counts: epoch() == old(epoch()) && vepoch() >= old(vepoch())
 //@   modifies frame: anything
